@@ -274,7 +274,26 @@ def main():
                 # decided after the property oracle has seen the case: when the implementation fails the PROPERTY on this input
                 # (impl != spec) the exact model - which agrees with the spec - necessarily differs from it as well; that is the
                 # failing input itself, not a broken correspondence
-                pending_mismatch.append((rc, str(impl)[:300], str(replies[si])[:300], why))
+                # no clear decision margin: every column that only one side reports has BOTH parameters within 2^-40 of break
+                # points k/2^m (m <= 8) of the bisection - there the exact model and the binary64 run take the closed box /
+                # chord-parameter decisions on different sides of a tie (the mechanism of finding F-W); the property oracle
+                # above still judges the case, only the model comparison is inconclusive
+                def at_break(v):
+                    v = Fr(v)
+                    return any(abs(v * 2 ** m - round(v * 2 ** m)) <= Fr(2 ** m, 2 ** 40) for m in range(0, 9))
+                inconclusive = False
+                if st == "ok" and mst == "ok":
+                    ic = [(Fr(a), Fr(b)) for a, b in impl[1]]
+                    mc = [(Fr(c[0]), Fr(c[1])) for c in mval]
+                    tol_ = Fr(1, 2 ** 26)
+                    only_i = [p for p in ic if not any(abs(p[0] - q[0]) <= tol_ and abs(p[1] - q[1]) <= tol_ for q in mc)]
+                    only_m = [q for q in mc if not any(abs(p[0] - q[0]) <= tol_ and abs(p[1] - q[1]) <= tol_ for p in ic)]
+                    inconclusive = bool(only_i or only_m) and all(at_break(p[0]) and at_break(p[1]) for p in only_i + only_m)
+                if inconclusive:
+                    d = res.dist.setdefault("model_comparison_inconclusive_at_break_points", {})
+                    d["self_intersections"] = d.get("self_intersections", 0) + 1
+                else:
+                    pending_mismatch.append((rc, str(impl)[:300], str(replies[si])[:300], why))
         if kind == "nonterminating":
             if st == "recursion":
                 res.failure("self-intersections:zero-edge-then-pi-turn", "self_intersections of [(0,0),(0,0),(-1,0)] recurses without bound (RecursionError)", rc)
